@@ -1,6 +1,7 @@
 From Coq Require Extraction.
 From Coq Require Import ExtrOcamlBasic.
-From NV Require Import Base.Witness Io.Sched Bgzf.MtWriter Bgzf.MtReader Bgzf.Vpos Bgzf.Gzi Bgzf.ReaderOps Bgzf.MtReaderOps Bgzf.MtReaderErr.
+From NV Require Import Base.Witness Io.Sched Bgzf.MtWriter Bgzf.MtReader Bgzf.Vpos Bgzf.Gzi Bgzf.ReaderOps Bgzf.MtReaderOps Bgzf.MtReaderErr Bgzf.MtReaderBridge Sinks.Sink Sinks.Mt Sinks.MtApp Bgzf.MtWriterApi Bgzf.MtWriterBridge.
 Extraction "model.ml" nv_types_witness c03_writer_model c03_st_writer_model stage c03_reader_model
   pack vcomp vuncomp c03_mt_reader_case c03_st_reader_case
-  c03_mt_reader_err_case c03_st_reader_err_case.
+  c03_mt_reader_err_case c03_st_reader_err_case
+  c03_mt_reader_case_via_err c03_st_reader_case_via_err c03_writer_api_obs c03_writer_bridge_case.
